@@ -62,6 +62,17 @@ CHECKS["C04"] = dict(
         "property words it. BAM pass-through is checked under C16.",
    technique="TLA+ byte-provenance model checked by TLC; every write program replayed on non-canonical files and bytes compared",
    design="6/C04")
+CHECKS["C06"] = dict(
+   text="spec/Encoding.tla defines membership (lower case aliases letters only), Encode/Decode for the ten predefined alphabets and a "
+        "state machine of one encoded value moved between alphabets by Retarget (as_encoded_array on encoded data) and Change "
+        "(change_encoding), reversed as a row view, and re-encoded after the caller scribbles on an earlier result; invariant "
+        "TextPreserved. TLC prints the complete 0..255 byte table of every alphabet and every reachable value state; all are replayed "
+        "with str / list / encoded array / ragged inputs, plus texts with one foreign byte at every position. The byte x alphabet and "
+        "alphabet-pair spaces are finite and small: exhaustive enumeration is the right level.",
+   note=TB + "Bounds: texts of length <=2 (quick) / <=3 (thorough) over probe characters (first four + last character of the alphabet, both "
+        "cases), <=3 operations. Exceptions are always acceptable for retarget/change ('or raises').",
+   technique="TLA+ executable definition + value state machine checked by TLC; exhaustive byte tables and states replayed into code",
+   design="6/C06")
 PENDING = {}
 def main():
     props = [json.loads(l)["id"] for l in open(os.path.join(HERE, "properties.jsonl"))]
